@@ -33,7 +33,14 @@ type ctx struct {
 }
 
 func (x *ctx) fail(sig, what string, v *big.Int) {
-	x.r.Violate("digits/"+sig, fmt.Sprintf("%s (scalar %x)", what, v), Case{Kind: "value", V: fmt.Sprintf("%x", v)})
+	// the witness replays the whole enclosing case: the scalar objects carry a past, so the value alone may not
+	// reproduce a failure that depends on what its object held before
+	c := x.c
+	if c.Kind == "" || c.Kind == "value" {
+		c = Case{Kind: "value"}
+	}
+	c.V = fmt.Sprintf("%x", v)
+	x.r.Violate("digits/"+sig, fmt.Sprintf("%s (scalar %x)", what, v), c)
 }
 
 func (x *ctx) check(v *big.Int) {
